@@ -822,8 +822,27 @@ func Backtracky(r *rand.Rand, alphabet []rune) *Grammar {
 			// (P x)* P y : the last iteration of the star fails after P wrote its tokens
 			return Seq(Un(KStar, &Expr{K: KSeq, Kids: append(clone(p), term())}), &Expr{K: KSeq, Kids: append(clone(p), Un(KQuery, term()))})
 		}
+		// interleaved: A x / B y / A z [/ B w]: between the two visits of A at one offset a DIFFERENT prefix B is
+		// tried there (and may write fewer or more tokens into the same slots before it fails)
+		interleaved := func() *Expr {
+			p, q := prefix(), prefix()
+			alt := &Expr{K: KAlt}
+			mk := func(pre []*Expr) *Expr {
+				return &Expr{K: KSeq, Kids: append(clone(pre), term())}
+			}
+			alt.Kids = append(alt.Kids, mk(p), mk(q), mk(p))
+			if r.Intn(2) == 0 {
+				alt.Kids = append(alt.Kids, mk(q))
+			}
+			if r.Intn(2) == 0 {
+				alt.Kids = append(alt.Kids, &Expr{K: KSeq, Kids: clone(p)})
+			}
+			return alt
+		}
 		top := func() *Expr {
-			switch r.Intn(4) {
+			switch r.Intn(6) {
+			case 4, 5:
+				return interleaved()
 			case 0:
 				return shared()
 			case 1:
